@@ -91,26 +91,27 @@ InitTwo ==
     IN \E base \in Firsts : Seconds(n, base)
 
 (* ---- prefilled operands: fill(pf) on the whole buffer, then every writable entry written ---------------- *)
-\* observers of a prefilled A (storage Full or Banded): read-all / is_identity for every full pattern, one more write at
-\* every (i,j), every scalar op, every binary op with every storage of a (prefilled) second operand
+\* observers of a prefilled A (every constructor; an Identity takes no writes, so only the empty pattern): read-all /
+\* is_identity for every full pattern, one more write at every (i,j), every scalar op, every binary op with every
+\* storage of a (prefilled) second operand
 PfVals == {5, TINY}
 PfScalars == {0, 2, TINY}
 InitPrefilled ==
   \E n \in 1..MaxN : \E cfg \in CtorCfgs(n) :
-    /\ CtorStorage(cfg.ctor, n, cfg.ml, cfg.mu).kind # "I"
-    /\ \/ \E pat \in {"zero", "eye", "dist"} : \E op \in {"read", "is_identity"} : \E v \in PfVals :
+    /\ \/ \E pat \in PatsFor(cfg, n, {"zero", "eye", "dist"}) : \E op \in {"read", "is_identity"} : \E v \in PfVals :
             sc = Pf(Sc(n, cfg, pat, op, 0, 0, 0, NoB, "zero"), v)
-       \/ \E i \in 0..n - 1 : \E j \in 0..n - 1 : sc = Pf(Sc(n, cfg, "dist", "write", i, j, 0, NoB, "zero"), 5)
-       \/ \E pat \in {"eye", "dist"} : \E op \in ScalarOps : \E s \in PfScalars :
+       \/ \E pat \in PatsFor(cfg, n, {"dist"}) : \E i \in 0..n - 1 : \E j \in 0..n - 1 :
+            sc = Pf(Sc(n, cfg, pat, "write", i, j, 0, NoB, "zero"), 5)
+       \/ \E pat \in PatsFor(cfg, n, {"eye", "dist"}) : \E op \in ScalarOps : \E s \in PfScalars :
             sc = Pf(Sc(n, cfg, pat, op, 0, 0, s, NoB, "zero"), 5)
-       \/ \E op \in BinOps : \E b \in BShapes(n) :
-            sc = Pf(Sc(n, cfg, "eye", op, 0, 0, 0, b, IF b.kind = "I" THEN "zero" ELSE "sq"), 5)
-\* two-operation sequences on a prefilled Banded identity pattern: the first result keeps the band buffer (corner cells
-\* scaled), the second operation observes it
+       \/ \E pat \in PatsFor(cfg, n, {"eye"}) : \E op \in BinOps : \E b \in BShapes(n) :
+            sc = Pf(Sc(n, cfg, pat, op, 0, 0, 0, b, IF b.kind = "I" THEN "zero" ELSE "sq"), 5)
+\* two-operation sequences on a prefilled Banded identity pattern (the first result keeps the band buffer, corner cells
+\* scaled) and on a prefilled Identity: the second operation observes the result
 InitTwoPrefilled ==
-  \E n \in TwoSizes : \E ash \in {sh \in TwoShapes(n) : sh.kind = "B"} :
+  \E n \in TwoSizes : \E ash \in {sh \in TwoShapes(n) : sh.kind \in {"B", "I"}} :
     \E op \in {"component_mul", "component_mul_mut"} : \E s \in {1, 2} :
-      Seconds(n, Pf(Sc(n, ShapeCfg(ash), "eye", op, 0, 0, s, NoB, "zero"), 5))
+      Seconds(n, Pf(Sc(n, ShapeCfg(ash), IF ash.kind = "I" THEN "zero" ELSE "eye", op, 0, 0, s, NoB, "zero"), 5))
 
 InitScenario ==
   \E n \in 1..MaxN : \E cfg \in CtorCfgs(n) :
@@ -143,13 +144,13 @@ CtorA ==
   /\ pc' = IF HasPf(sc) THEN "prefillA" ELSE "fillA"
   /\ UNCHANGED <<sc, B, C, R, R2, dB, dC, dR>>
 
-\* fill(pf): no C17 clause; the model's own view (FillMeaning) must agree with its layout
+\* fill(pf): clause C17_Fill
 PrefillA ==
   /\ pc = "prefillA"
   /\ LET r == StepPrefillA(sc, A) IN
        /\ A' = r.mat
        /\ dA' = FillMeaning(StA(sc), dA, sc.pf)
-       /\ cok' = (cok /\ ~r.panic /\ ReadAll(r.mat) = FillMeaning(StA(sc), dA, sc.pf))
+       /\ cok' = (cok /\ ClausePrefillA(sc, dA, r.panic, ReadAll(r.mat)))
   /\ pc' = "fillA"
   /\ UNCHANGED <<sc, B, C, R, R2, dB, dC, dR>>
 
@@ -176,7 +177,7 @@ PrefillB ==
   /\ LET r == StepPrefillB(sc, B) IN
        /\ B' = r.mat
        /\ dB' = FillMeaning(StB(sc), dB, sc.pf)
-       /\ cok' = (cok /\ ~r.panic /\ ReadAll(r.mat) = FillMeaning(StB(sc), dB, sc.pf))
+       /\ cok' = (cok /\ ClausePrefillB(sc, dB, r.panic, ReadAll(r.mat)))
   /\ pc' = "fillB"
   /\ UNCHANGED <<sc, A, C, R, R2, dA, dC, dR>>
 
@@ -195,7 +196,7 @@ Op ==
        /\ R' = r
        /\ cok' = (cok /\ ClauseOp(sc, dA, dB, r.panic, ReadAll(r.mat), r.val)
                       /\ r.panic = ExpectPanic(sc)
-                      /\ (sc.op \notin {"swap_rows", "fill"} => ReadAll(r.mat) = ExpectRes(sc))
+                      /\ (sc.op # "swap_rows" => ReadAll(r.mat) = ExpectRes(sc))
                       /\ (sc.op = "is_identity" => r.val = ExpectIsId(sc)))
   /\ dR' = ExpectRes(sc)
   /\ pc' = IF ~HasOp2(sc) THEN "done" ELSE IF IsBin2(sc) THEN "ctorC" ELSE "op2"
@@ -262,7 +263,7 @@ Emit ==
                                            B1 |-> IF IsBin(sc) THEN ExpectB1(sc) ELSE <<>>,
                                            res |-> ExpectRes(sc), panic |-> ExpectPanic(sc),
                                            is_identity |-> ExpectIsId(sc),
-                                           specified |-> sc.op \notin {"swap_rows", "fill"},
+                                           specified |-> sc.op # "swap_rows",
                                            res2 |-> IF HasOp2(sc) THEN ExpectRes2(sc, Shape(R.mat)) ELSE <<>>,
                                            panic2 |-> HasOp2(sc) /\ ExpectPanic2(sc, Shape(R.mat)),
                                            is_identity2 |-> HasOp2(sc) /\ ExpectIsId2(sc)]])>>)
